@@ -83,7 +83,6 @@ require (
 	github.com/dustin/go-humanize v1.0.1 // indirect
 	github.com/dvsekhvalnov/jose2go v1.6.0 // indirect
 	github.com/emicklei/dot v1.6.1 // indirect
-	github.com/ethereum/go-ethereum v1.10.26 // indirect
 	github.com/fatih/color v1.15.0 // indirect
 	github.com/felixge/httpsnoop v1.0.4 // indirect
 	github.com/fsnotify/fsnotify v1.7.0 // indirect
@@ -254,6 +253,7 @@ replace (
 
 require (
 	cosmossdk.io/depinject v1.0.0
+	github.com/ethereum/go-ethereum v1.10.26
 	mods.irisnet.org/e2e v0.0.0
 )
 
